@@ -7,6 +7,7 @@ import NutsModel.Facts.C08
 import NutsProofs.Lemmas.C08Tree
 import NutsProofs.Lemmas.C08Data
 import NutsProofs.Lemmas.C08Inv
+import NutsProofs.Lemmas.C08Repair
 
 namespace Nuts.C08.Props
 open Nuts.C08
@@ -141,17 +142,24 @@ abbrev NB : Nat := Facts.C08.ibltNumBuckets
 theorem cfg_good : Good cfg := ⟨by decide, by decide, by decide⟩
 
 /-- the states the node can be in: start from the empty store; `Add` calls with ANY transaction, payload and outcome of
-    the commit (concurrent calls are serialised by the write lock, in any order); process stop + restart at any point -/
+    the commit (concurrent calls are serialised by the write lock, in any order); process stop + restart at any point;
+    the repair loop's signals and page checks at any point -/
 inductive Reachable : State NB → Prop
   | init : Reachable (State.init cfg)
   | add {s} (tx : Tx) (opt : AddOpts) : Reachable s → Reachable (add cfg s tx opt).1
   | restart {s} : Reachable s → Reachable (restart cfg s)
+  | signalIncorrect {s} : Reachable s → Reachable (signalIncorrect s)
+  | signalCorrect {s} : Reachable s → Reachable (signalCorrect s)
+  | checkPage {s} : Reachable s → Reachable (checkPage cfg s)
 
 theorem reachable_inv {s : State NB} (r : Reachable s) : SInv cfg s := by
   induction r with
   | init => exact SInv.init cfg
   | add tx opt _ ih => exact (ih.add cfg_good tx opt).1
   | restart _ ih => exact ih.restart cfg_good
+  | signalIncorrect _ ih => exact ⟨ih.g, ih.lc, ih.x, ih.i⟩
+  | signalCorrect _ ih => exact ⟨ih.g, ih.lc, ih.x, ih.i⟩
+  | checkPage _ ih => exact (ih.checkPage cfg_good).1
 
 /-- what is observable of a state: XOR and IBLT for a requested clock, count, highest clock (memory and disk), head -/
 structure Observables (s : State NB) (S : List Tx) : Prop where
@@ -259,6 +267,133 @@ example : (add cfg (State.init cfg : State NB) exRoot { commitFails := true }).2
 example : (add cfg (add cfg (State.init cfg : State NB) exRoot {}).1 exChild {}).2 = .ok () := by decide
 example : Reachable (restart cfg (add cfg (add cfg (State.init cfg) exRoot {}).1 exChild { commitFails := true }).1) :=
   .restart (.add _ _ (.add _ _ .init))
+
+/-! ### repair -/
+
+/-- **The repair loop never disturbs a healthy state**: whatever the circuit state and the page it is at, `checkPage`
+    changes neither the disk nor the trees. -/
+theorem repair_idle_on_healthy_state {s : State NB} (r : Reachable s) :
+    (checkPage cfg s).disk = s.disk ∧ (checkPage cfg s).mem.xorTree = s.mem.xorTree ∧
+    (checkPage cfg s).mem.ibltTree = s.mem.ibltTree ∧ (checkPage cfg s).mem.lcHigh = s.mem.lcHigh :=
+  ((reachable_inv r).checkPage cfg_good).2
+
+/-- **Repair is local.** In a state whose XOR pages hold arbitrary values `val` (tree and shelf in sync — a corrupted
+    leaf that was loaded from disk), `checkPage` with the circuit red, at an existing page `p`, sets page `p` — in
+    memory and on disk — to the value recomputed from the stored transactions and leaves every other page's leaf,
+    the IBLT tree and shelf, the stored transactions, the clock index and the metadata untouched. -/
+theorem repair_local {s : State NB} {val : Nat → BitVec 256} (h : XInv cfg s val) (red : ¬ s.mem.circuit < 2)
+    (hp : s.mem.repairPage ≤ maxClock s.disk.txs / cfg.pageSize) :
+    XInv cfg (checkPage cfg s) (upd val s.mem.repairPage (xorSpec cfg s s.mem.repairPage)) ∧
+    (checkPage cfg s).disk.txs = s.disk.txs ∧ (checkPage cfg s).disk.clocks = s.disk.clocks ∧
+    (checkPage cfg s).disk.count = s.disk.count ∧ (checkPage cfg s).disk.lcHigh = s.disk.lcHigh ∧
+    (checkPage cfg s).disk.head = s.disk.head ∧ (checkPage cfg s).disk.ibltLeaves = s.disk.ibltLeaves ∧
+    (checkPage cfg s).mem.ibltTree = s.mem.ibltTree ∧ (checkPage cfg s).mem.lcHigh = s.mem.lcHigh :=
+  h.checkPage cfg_good red hp
+
+/-- `k` runs of `checkPage` -/
+def checkN : Nat → State NB → State NB
+  | 0, s => s
+  | k + 1, s => checkN k (checkPage cfg s)
+
+theorem next_page {s : State NB} {val : Nat → BitVec 256} (h : XInv cfg s val) (red : ¬ s.mem.circuit < 2)
+    (hp : s.mem.repairPage < maxClock s.disk.txs / cfg.pageSize) :
+    (checkPage cfg s).mem.repairPage = s.mem.repairPage + 1 ∧ (checkPage cfg s).mem.circuit = s.mem.circuit := by
+  obtain ⟨txs, hf, _⟩ := calc_root cfg_good.pos h.g s.mem.repairPage
+  have hn : nextPage cfg s = s.mem.repairPage + 1 := by
+    unfold nextPage
+    have h1 : (s.mem.repairPage + 1) * cfg.pageSize ≤ maxClock s.disk.txs := by
+      have := (Nat.le_div_iff_mul_le cfg_good.pos).mp (show s.mem.repairPage + 1 ≤ maxClock s.disk.txs / cfg.pageSize by omega)
+      exact this
+    rw [Nat.add_mul, Nat.one_mul] at h1
+    have : ¬ (s.mem.repairPage * cfg.pageSize + cfg.pageSize > s.mem.lcHigh) := by rw [h.lc, h.g.lc]; omega
+    simp [this]
+  by_cases he : xorOps.empty (xorOps.sub (pageXor cfg.pageSize s.mem.xorTree s.mem.repairPage) (calcXor cfg.pageSize txs)) = true
+  · rw [checkPage_nochange red hf he]; exact ⟨hn, rfl⟩
+  · rw [checkPage_replace red hf he]; exact ⟨hn, rfl⟩
+
+/-- running the repair loop from page 0 over the first `k` pages: those pages hold the recomputed values, the others
+    are as they were -/
+theorem repair_prefix : ∀ (k : Nat) (s : State NB) (val : Nat → BitVec 256) (j : Nat), XInv cfg s val →
+    ¬ s.mem.circuit < 2 → s.mem.repairPage = j → j + k ≤ maxClock s.disk.txs / cfg.pageSize + 1 →
+    XInv cfg (checkN k s) (fun q => if j ≤ q ∧ q < j + k then xorSpec cfg s q else val q) ∧
+    (checkN k s).disk.txs = s.disk.txs := by
+  intro k
+  induction k with
+  | zero =>
+    intro s val j h _ _ _
+    have : (fun q => if j ≤ q ∧ q < j + 0 then xorSpec cfg s q else val q) = val := by
+      funext q; have : ¬ (j ≤ q ∧ q < j + 0) := by omega
+      rw [if_neg this]
+    rw [this]; exact ⟨h, rfl⟩
+  | succ k ih =>
+    intro s val j h red hj hle
+    subst hj
+    have step := repair_local h red (by omega)
+    obtain ⟨hx, htx, _⟩ := step
+    have hspec : xorSpec cfg (checkPage cfg s) = xorSpec cfg s := by unfold xorSpec; rw [htx]
+    by_cases hk : k = 0
+    · subst hk
+      refine ⟨?_, htx⟩
+      show XInv cfg (checkPage cfg s) _
+      have : (fun q => if s.mem.repairPage ≤ q ∧ q < s.mem.repairPage + (0 + 1) then xorSpec cfg s q else val q) =
+          upd val s.mem.repairPage (xorSpec cfg s s.mem.repairPage) := by
+        funext q; unfold upd
+        by_cases e : q = s.mem.repairPage
+        · rw [if_pos (by omega : s.mem.repairPage ≤ q ∧ q < s.mem.repairPage + (0 + 1)), if_pos e, e]
+        · rw [if_neg (by omega : ¬ (s.mem.repairPage ≤ q ∧ q < s.mem.repairPage + (0 + 1))), if_neg e]
+      rw [this]; exact hx
+    · have np := next_page h red (by omega)
+      have := ih (checkPage cfg s) _ (s.mem.repairPage + 1) hx (by rw [np.2]; exact red) np.1 (by rw [htx]; omega)
+      obtain ⟨i1, i2⟩ := this
+      refine ⟨?_, by rw [← htx]; exact i2⟩
+      show XInv cfg (checkN k (checkPage cfg s)) _
+      have e : (fun q => if s.mem.repairPage + 1 ≤ q ∧ q < s.mem.repairPage + 1 + k then xorSpec cfg (checkPage cfg s) q
+            else upd val s.mem.repairPage (xorSpec cfg s s.mem.repairPage) q) =
+          (fun q => if s.mem.repairPage ≤ q ∧ q < s.mem.repairPage + (k + 1) then xorSpec cfg s q else val q) := by
+        funext q
+        rw [hspec]; unfold upd
+        by_cases e1 : q = s.mem.repairPage
+        · rw [if_neg (by omega : ¬ (s.mem.repairPage + 1 ≤ q ∧ q < s.mem.repairPage + 1 + k)), if_pos e1,
+            if_pos (by omega : s.mem.repairPage ≤ q ∧ q < s.mem.repairPage + (k + 1)), e1]
+        · by_cases e2 : s.mem.repairPage + 1 ≤ q ∧ q < s.mem.repairPage + 1 + k
+          · rw [if_pos e2, if_pos (by omega : s.mem.repairPage ≤ q ∧ q < s.mem.repairPage + (k + 1))]
+          · rw [if_neg e2, if_neg e1, if_neg (by omega : ¬ (s.mem.repairPage ≤ q ∧ q < s.mem.repairPage + (k + 1)))]
+      rw [e] at i1
+      exact i1
+
+/-- **A corrupted page is restored by the repair procedure.** Take any reachable state with stored transactions,
+    overwrite the persisted XOR leaf of any existing page `p` with any value, restart (the corrupted leaf is now in the
+    tree), signal "incorrect state" twice and let the repair loop check pages `0 … p`: the state is healthy again —
+    every observable, for every requested clock, is what the stored set implies — and the stored set is unchanged. -/
+theorem repair_restores {s : State NB} (r : Reachable s) (hne : s.disk.txs ≠ []) (p : Nat)
+    (hp : p ≤ maxClock s.disk.txs / cfg.pageSize) (v : BitVec 256) :
+    let s1 := signalIncorrect (signalIncorrect (restart cfg (corruptDisk s (keyOf cfg.pageSize p) v)))
+    SInv cfg (checkN (p + 1) s1) ∧ (checkN (p + 1) s1).disk.txs = s.disk.txs ∧
+    Observables (checkN (p + 1) s1) s.disk.txs := by
+  intro s1
+  have c := (reachable_inv r).corrupt_restart cfg_good hne p hp v
+  obtain ⟨hx, htx⟩ := c
+  have hx1 : XInv cfg s1 (upd (xorSpec cfg s) p v) := ⟨hx.g, hx.lc, hx.ne, hx.sync, hx.i⟩
+  have htx1 : s1.disk.txs = s.disk.txs := htx
+  have red : ¬ s1.mem.circuit < 2 := by
+    show ¬ ((restart cfg (corruptDisk s (keyOf cfg.pageSize p) v)).mem.circuit + 1 + 1 < 2)
+    omega
+  have rp := repair_prefix (p + 1) s1 _ 0 hx1 red rfl (by rw [htx1]; omega)
+  obtain ⟨hxn, htxn⟩ := rp
+  have hspec1 : xorSpec cfg s1 = xorSpec cfg s := by unfold xorSpec; rw [htx1]
+  have hval : (fun q => if 0 ≤ q ∧ q < 0 + (p + 1) then xorSpec cfg s1 q else upd (xorSpec cfg s) p v q) =
+      xorSpec cfg (checkN (p + 1) s1) := by
+    have : xorSpec cfg (checkN (p + 1) s1) = xorSpec cfg s := by unfold xorSpec; rw [htxn, htx1]
+    rw [this, hspec1]
+    funext q; unfold upd
+    by_cases h1 : 0 ≤ q ∧ q < 0 + (p + 1)
+    · rw [if_pos h1]
+    · rw [if_neg h1, if_neg (by omega : ¬ q = p)]
+  rw [hval] at hxn
+  have hs := hxn.healthy cfg_good
+  have ho := observables_of_sinv hs
+  rw [htxn, htx1] at ho
+  exact ⟨hs, by rw [htxn, htx1], ho⟩
 
 /-! ### the `uint32` bound -/
 
